@@ -32,7 +32,7 @@ SPEC = {
                  ['getAge', True, 'integer', []],
                  ['rename', True, 'string', [['first', 'string'], ['last', 'string'], ['n', 'integer']]],
                  ['count', False, 'integer', []],
-                 ['reset', False, 'void', [['to', 'integer']]],
+                 ['reset', False, 'void', [['val', 'integer']]],
                  ['home_op', True, 'void', [['pi', 'integer'], ['pb', 'boolean'], ['ps', 'string'], ['pr', 'real']]]]},
         {'kl': 'PER', 'name': 'Person',
          'attrs': [['Id', 'integer'], ['Name', 'string'], ['Rich', 'boolean'], ['Cash', 'real']],
